@@ -8,17 +8,19 @@ import (
 	"github.com/failsafe-go/failsafe-go"
 	"github.com/failsafe-go/failsafe-go/common"
 	"github.com/failsafe-go/failsafe-go/verifrt/vrt"
+	"sort"
 )
 
 // Rec is one probe record: layer i sits just outside policy i; layer len(stack) wraps the function.
 type Rec struct {
-	Layer  int
-	Enter  bool
-	App    int // application number within the layer (in enter order)
-	Seq    int // position in the execution's probe log
-	T      int64
-	Thread int
-	Exec   failsafe.Execution[int]
+	Layer   int
+	Enter   bool
+	App     int // application number within the layer (in enter order)
+	Seq     int // position in the execution's probe log
+	T       int64
+	Thread  int
+	Creator int // the thread that spawned Thread
+	Exec    failsafe.Execution[int]
 	// exit only
 	Res             *common.PolicyResult[int]
 	CanceledAtExit  bool
@@ -67,7 +69,7 @@ func (env *Env) recEnter(layer int, exec failsafe.Execution[int]) int {
 	app := env.appCount[layer]
 	env.appCount[layer]++
 	env.seq++
-	rec := &Rec{Layer: layer, Enter: true, App: app, Seq: env.seq, T: vrt.Elapsed(), Thread: vrt.ThreadID(), Exec: exec}
+	rec := &Rec{Layer: layer, Enter: true, App: app, Seq: env.seq, T: vrt.Elapsed(), Thread: vrt.ThreadID(), Creator: vrt.ThreadCreator(vrt.ThreadID()), Exec: exec}
 	if env.ProbeStats {
 		rec.Attempts, rec.Execs, rec.Retries, rec.Hedges, rec.IsHedge = exec.Attempts(), exec.Executions(), exec.Retries(), exec.Hedges(), exec.IsHedge()
 	}
@@ -79,7 +81,7 @@ func (env *Env) recEnter(layer int, exec failsafe.Execution[int]) int {
 //go:norace
 func (env *Env) recExit(layer, app int, exec failsafe.Execution[int], r *common.PolicyResult[int]) {
 	env.seq++
-	rec := &Rec{Layer: layer, App: app, Seq: env.seq, T: vrt.Elapsed(), Thread: vrt.ThreadID(), Exec: exec, Res: r}
+	rec := &Rec{Layer: layer, App: app, Seq: env.seq, T: vrt.Elapsed(), Thread: vrt.ThreadID(), Creator: vrt.ThreadCreator(vrt.ThreadID()), Exec: exec, Res: r}
 	if env.ProbeStats {
 		rec.Attempts, rec.Execs, rec.Retries, rec.Hedges, rec.IsHedge = exec.Attempts(), exec.Executions(), exec.Retries(), exec.Hedges(), exec.IsHedge()
 	}
@@ -160,9 +162,9 @@ func (env *Env) Apps() (roots []*App, byLayer [][]*App) {
 }
 
 // reattributeHedgeChildren: a hedge application starts 1 + (number of its OnHedge events) attempts,
-// each on a new goroutine that may only get to run after the application has returned. The
-// attempts of an application are therefore taken to be the earliest not yet attributed entries of
-// the layer inside it, in order, as many as it started.
+// each on a new goroutine that may only get to run after the application has returned (and after a
+// later application of the same layer has started its own). The attempts of an application are
+// therefore identified by thread ancestry and creation order, as many as it started.
 func (env *Env) reattributeHedgeChildren(byLayer [][]*App) {
 	for i, s := range env.Stack {
 		if s.Kind != KHedge || i+1 >= len(byLayer) {
@@ -185,11 +187,16 @@ func (env *Env) reattributeHedgeChildren(byLayer [][]*App) {
 					a.StartTimes = append(a.StartTimes, e.At)
 				}
 			}
-			for _, c := range byLayer[i+1] {
+			// an attempt runs on a goroutine spawned by the thread that runs the application; thread ids
+			// grow in creation order, so among the entries spawned by that thread the application's own
+			// attempts are the earliest-created ones not yet attributed
+			cands := append([]*App{}, byLayer[i+1]...)
+			sort.SliceStable(cands, func(x, y int) bool { return cands[x].In.Thread < cands[y].In.Thread })
+			for _, c := range cands {
 				if len(a.Children) == a.Started {
 					break
 				}
-				if !taken[c] && c.In.Seq > a.In.Seq {
+				if !taken[c] && c.In.Seq > a.In.Seq && c.In.Creator == a.In.Thread {
 					taken[c] = true
 					c.Parent = a
 					a.Children = append(a.Children, c)
